@@ -281,10 +281,10 @@ def c06IssueClauses (csr certTbs : Bytes) : List String :=
   | some (info, _, _) =>
     match decodeCsrInfo info, decodeTbsCert certTbs with
     | some r, some c =>
+      -- everything the request asks for: every value of every extensionRequest attribute
       let reqExts : Option (List Ext) :=
-        match r.attrs.filter (fun a => a.oid == oidExtensionRequest) with
-        | [] => some []
-        | a :: _ => decodeExtensionRequest a.values
+        ((r.attrs.filter (fun a => a.oid == oidExtensionRequest)).mapM
+          (fun a => decodeExtensionRequestAll a.values)).map List.flatten
       (match reqExts with
        | none => ["C06:extension-request-decodes"]
        | some rx =>
